@@ -127,6 +127,9 @@ enum Op {
     Delete { key: u8 },
     Sync,
     Checkpoint,
+    /// generator-only: expanded into one Delete per key (and, if set, a Checkpoint of the then
+    /// empty store) before the case is built; never part of a Case
+    DeleteAll(bool),
 }
 
 #[derive(Clone, Debug, Serialize, Deserialize)]
@@ -151,6 +154,7 @@ fn op_strategy() -> impl Strategy<Value = Op> {
         4 => (0u8..10).prop_map(|key| Op::Delete { key }),
         2 => Just(Op::Sync),
         2 => Just(Op::Checkpoint),
+        1 => any::<bool>().prop_map(Op::DeleteAll),
     ]
 }
 
@@ -166,7 +170,23 @@ fn case_strategy(t: Tier) -> impl Strategy<Value = Case> {
             mode,
             batch,
             tiny_log,
-            ops: ops.into_iter().map(|(op, crash)| Scripted { op, crash }).collect(),
+            ops: ops
+                .into_iter()
+                .flat_map(|(op, crash)| match op {
+                    // an emptied store (and a checkpoint of it): one call per key, so that every
+                    // call stays a unit of acknowledgement
+                    Op::DeleteAll(cp) => {
+                        let mut v: Vec<Scripted> = (0..KEYS.len() as u8).map(|key| Scripted { op: Op::Delete { key }, crash: None }).collect();
+                        if cp {
+                            v.push(Scripted { op: Op::Checkpoint, crash });
+                        } else if let Some(l) = v.last_mut() {
+                            l.crash = crash;
+                        }
+                        v
+                    },
+                    op => vec![Scripted { op, crash }],
+                })
+                .collect(),
         })
 }
 
@@ -345,6 +365,7 @@ impl<'a> Driver<'a> {
                     ctx.label("delete of an existing key");
                 }
             },
+            Op::DeleteAll(_) => unreachable!("expanded by the generator"),
             Op::Sync => {
                 synced = self.store.sync().is_ok();
             },
@@ -564,7 +585,7 @@ fn cuts_for(before: usize, after: usize, all: bool, bounds: &[usize]) -> Vec<usi
 fn op_name(op: &Op) -> &'static str {
     match op {
         Op::Put { .. } => "put_durable",
-        Op::Delete { .. } => "delete_durable",
+        Op::Delete { .. } | Op::DeleteAll(_) => "delete_durable",
         Op::Sync => "sync",
         Op::Checkpoint => "checkpoint",
     }
